@@ -236,7 +236,9 @@ def build_world(w, ktables=False, kweights=None, mode='linear', wn_per_mol=None)
     for g in w['gases']:
         if g['mol'] in fill:
             continue
-        if g.get('logtop') is None:
+        if g.get('zero'):
+            W.chemistry.addGas(ConstantGas(g['mol'], mix_ratio=0.0))
+        elif g.get('logtop') is None:
             W.chemistry.addGas(ConstantGas(g['mol'], mix_ratio=10.0 ** g['logmix']))
         else:
             from taurex.data.profiles.chemistry.gas.arraygas import ArrayGas
